@@ -1,4 +1,5 @@
 import DoitModel.Proofs.C09OrdF
+import DoitModel.Proofs.RunMonFast
 /-! # C09 — from the order of terminal reports to the monitor's closure graph: a task with a terminal report lies on
     no cycle of `edgesAt`; at a normal end every member of `closureOf` has a terminal report -/
 namespace DoitModel.Run
@@ -175,7 +176,7 @@ theorem calcsAtF_calcH {σ : Name → RS} {P : Name → Prop} {tr : List Ev} {n 
 theorem stageAtF_stageH {σ : Name → RS} {P : Name → Prop} {tr : List Ev} {nTasks : Nat} {n d : Name}
     (hres : ResOK inp σ P tr) (h : d ∈ stageAtF inp nTasks tr n) : StageH inp σ P n d := by
   have hc := calcsAtF_calcH (inp := inp) (n := n) hres nTasks (inp.calcDep n) (fun c hc => .base hc)
-  simp only [stageAtF, calcsRun, deliveredAt, List.mem_append, List.mem_flatMap] at h
+  simp only [stageAtF, calcsRun, deliveredAt, calcsAtQ_eq, List.mem_append, List.mem_flatMap] at h
   rcases h with (a | a) | ⟨p, hp, hd⟩
   · exact Or.inl a
   · exact Or.inr (Or.inl (hc d a))
@@ -272,52 +273,6 @@ theorem resOK_trace {s : Sys} (c : CtxC inp s) : ResOK inp (stOf s) (Dyn.SF inp)
     · exact Or.inr (Or.inl ⟨by simp [h1, h2], failedRunIn_trace c h2⟩)
     · exact Or.inr (Or.inr (by simp [h1, h2]))
 
-/-! ### the core: an edge of the closure graph leads to an older terminal report -/
-
-theorem edge_older {s : Sys} (c : CtxC inp s) {nTasks : Nat}
-    (hsat : CalcsSat inp nTasks (trace inp s)) {t : Name} {a : Nat} (ha : fstTerm s.events t = some a) :
-    ∀ d ∈ edgesAt inp nTasks (trace inp s) t, ∃ b, fstTerm s.events d = some b ∧ b < a := by
-  intro d hd
-  rw [edgesAt_eq] at hd
-  rcases List.mem_append.mp hd with x | x
-  · exact c.hTF t a ha d (stageAtF_stageH (resOK_trace c) x)
-  · split at x
-    · rename_i hrf
-      exact c.hT.g2 t a ha
-        (ranFirst_runFirstG hsat (fun y hy => finishedIn_good c.hT hy) (fun y hy => good_finishedIn c.h2 hy) hrf) d x
-    · cases x
-
-/-- a task with a terminal report is on no cycle of the closure graph -/
-theorem reported_not_onCycle {s : Sys} (c : CtxC inp s) {nTasks : Nat}
-    (hsat : CalcsSat inp nTasks (trace inp s)) {t : Name} {a : Nat} (ha : fstTerm s.events t = some a) :
-    onCycle inp nTasks (trace inp s) t = false := by
-  cases hc : onCycle inp nTasks (trace inp s) t with
-  | false => rfl
-  | true =>
-    exfalso
-    unfold onCycle onCycleOf at hc
-    simp only [decide_eq_true_eq] at hc
-    have := reachIter_closed (succ := edgesAt inp nTasks (trace inp s))
-      (fun x => ∃ b, fstTerm s.events x = some b ∧ b < a)
-      (fun x ⟨b, hb, hlt⟩ y hy => by
-        obtain ⟨b', hb', hlt'⟩ := edge_older c hsat hb y hy
-        exact ⟨b', hb', by omega⟩)
-      nTasks _ (fun x hx => by
-        rcases mem_addNew9.mp hx with e | e
-        · cases e
-        · exact edge_older c hsat ha x e) t hc
-    obtain ⟨b, hb, hlt⟩ := this
-    rw [ha] at hb; cases hb; omega
-
-/-- the successors of a reported task are reported -/
-theorem reported_closed {s : Sys} (c : CtxC inp s) {nTasks : Nat}
-    (hsat : CalcsSat inp nTasks (trace inp s)) :
-    ∀ x, (∃ a, fstTerm s.events x = some a) → ∀ y ∈ edgesAt inp nTasks (trace inp s) x,
-      ∃ a, fstTerm s.events y = some a := by
-  rintro x ⟨a, ha⟩ y hy
-  obtain ⟨b, hb, _⟩ := edge_older c hsat ha y hy
-  exact ⟨b, hb⟩
-
 /-- the work-list closure stays inside every set that contains its start and is closed under `succ` -/
 theorem closureGo_closed {succ : Name → List Name} (P : Name → Prop) (hstep : ∀ x, P x → ∀ y ∈ succ x, P y) :
     ∀ (fuel : Nat) (todo acc : List Name), (∀ x ∈ todo, P x) → (∀ x ∈ acc, P x) →
@@ -346,6 +301,54 @@ theorem closureGo_closed {succ : Name → List Name} (P : Name → Prop) (hstep 
         rcases List.mem_append.mp hy with e | e
         · exact h y e
         · exact hnew y e
+
+/-! ### the core: an edge of the closure graph leads to an older terminal report -/
+
+theorem edge_older {s : Sys} (c : CtxC inp s) {nTasks : Nat}
+    (hsat : CalcsSat inp nTasks (trace inp s)) {t : Name} {a : Nat} (ha : fstTerm s.events t = some a) :
+    ∀ d ∈ edgesAt inp nTasks (trace inp s) t, ∃ b, fstTerm s.events d = some b ∧ b < a := by
+  intro d hd
+  rw [edgesAt_eq] at hd
+  rcases List.mem_append.mp hd with x | x
+  · exact c.hTF t a ha d (stageAtF_stageH (resOK_trace c) x)
+  · split at x
+    · rename_i hrf
+      exact c.hT.g2 t a ha
+        (ranFirst_runFirstG hsat (fun y hy => finishedIn_good c.hT hy) (fun y hy => good_finishedIn c.h2 hy) hrf) d x
+    · cases x
+
+/-- a task with a terminal report is on no cycle of the closure graph -/
+theorem reported_not_onCycle {s : Sys} (c : CtxC inp s) {nTasks : Nat}
+    (hsat : CalcsSat inp nTasks (trace inp s)) {t : Name} {a : Nat} (ha : fstTerm s.events t = some a) :
+    onCycle inp nTasks (trace inp s) t = false := by
+  cases hc : onCycle inp nTasks (trace inp s) t with
+  | false => rfl
+  | true =>
+    exfalso
+    unfold onCycle onCycleOf at hc
+    simp only [decide_eq_true_eq] at hc
+    have hstart : ∀ x ∈ addNew [] (edgesAt inp nTasks (trace inp s) t),
+        ∃ b, fstTerm s.events x = some b ∧ b < a := fun x hx => by
+      rcases mem_addNew9.mp hx with e | e
+      · cases e
+      · exact edge_older c hsat ha x e
+    have := closureGo_closed (succ := edgesAt inp nTasks (trace inp s))
+      (fun x => ∃ b, fstTerm s.events x = some b ∧ b < a)
+      (fun x ⟨b, hb, hlt⟩ y hy => by
+        obtain ⟨b', hb', hlt'⟩ := edge_older c hsat hb y hy
+        exact ⟨b', hb', by omega⟩)
+      _ _ _ hstart hstart t hc
+    obtain ⟨b, hb, hlt⟩ := this
+    rw [ha] at hb; cases hb; omega
+
+/-- the successors of a reported task are reported -/
+theorem reported_closed {s : Sys} (c : CtxC inp s) {nTasks : Nat}
+    (hsat : CalcsSat inp nTasks (trace inp s)) :
+    ∀ x, (∃ a, fstTerm s.events x = some a) → ∀ y ∈ edgesAt inp nTasks (trace inp s) x,
+      ∃ a, fstTerm s.events y = some a := by
+  rintro x ⟨a, ha⟩ y hy
+  obtain ⟨b, hb, _⟩ := edge_older c hsat ha y hy
+  exact ⟨b, hb⟩
 
 /-- if every selected task is reported, every member of the monitor's closure is -/
 theorem closure_reported {s : Sys} (c : CtxC inp s) {nTasks : Nat}
@@ -410,12 +413,13 @@ theorem onCycle_never_started {s : Sys} (c : CtxC inp s) {nTasks : Nat}
     have hc' := hc
     unfold onCycle onCycleOf at hc'
     simp only [decide_eq_true_eq] at hc'
-    obtain ⟨a, ha⟩ := reachIter_closed (succ := edgesAt inp nTasks (trace inp s))
-      (fun x => ∃ a, fstTerm s.events x = some a) (reported_closed c hsat) nTasks _
-      (fun x hx => by
+    have hstart : ∀ x ∈ addNew [] (edgesAt inp nTasks (trace inp s) m), ∃ a, fstTerm s.events x = some a :=
+      fun x hx => by
         rcases mem_addNew9.mp hx with e | e
         · cases e
-        · exact hedges x e) m hc'
+        · exact hedges x e
+    obtain ⟨a, ha⟩ := closureGo_closed (succ := edgesAt inp nTasks (trace inp s))
+      (fun x => ∃ a, fstTerm s.events x = some a) (reported_closed c hsat) _ _ _ hstart hstart m hc'
     rw [reported_not_onCycle c hsat ha] at hc; cases hc
   | _ => simp [Ev.isStartOf] at hp
 
@@ -459,5 +463,23 @@ theorem cycle_diagnosed_parallel {s : Sys} (hr : PReach inp s) (nTasks : Nat)
   · intro t ht
     unfold cycleTasks at ht
     exact onCycle_never_started c hsat (List.mem_filter.mp ht).2
+
+/-! ### the tabulated search of the driver computes `cycleTasks` -/
+
+theorem lookupSucc_table (succ : Name → List Name) (n : Nat) : lookupSucc (edgeTable succ n) succ = succ := by
+  funext x
+  unfold lookupSucc edgeTable
+  split
+  · simp
+  · rfl
+
+theorem cycleTasksFast_eq (inp : RunInput) (nTasks : Nat) (tr : List Ev) :
+    cycleTasksFast inp nTasks tr = cycleTasks inp nTasks tr := by
+  unfold cycleTasksFast cycleTasks closureC09 onCycle
+  simp only [lookupSucc_table]
+
+theorem monC09On_eq (inp : RunInput) (nTasks : Nat) (tr : List Ev) (o : C09Obs) :
+    monC09On (cycleTasksFast inp nTasks tr) inp tr o = monC09 inp nTasks tr o := by
+  rw [cycleTasksFast_eq]; rfl
 
 end DoitModel.Run
